@@ -719,6 +719,15 @@ func checkTool(c ToolCase) error {
 		if serr != nil || !bytes.Equal(stdout, want) {
 			return harness.Violatef("c11/tool-stdout", "disivg to stdout differs from Disassemble for input %d (%v)", i, serr)
 		}
+		// the same file named through a symbolic link
+		link := src + ".link"
+		os.Remove(link)
+		if os.Symlink(src, link) == nil {
+			stdout, serr := exec.Command(tool, link).Output()
+			if serr != nil || !bytes.Equal(stdout, want) {
+				return harness.Violatef("c11/tool-stdout", "disivg given a symbolic link to input %d: differs from Disassemble (%v)", i, serr)
+			}
+		}
 	}
 	return nil
 }
